@@ -59,6 +59,13 @@ fn rejected_family(id: TransactionId, fp: bool) -> Vec<(&'static str, Vec<u8>)> 
         v.push(("valid SHA1 integrity, missing FINGERPRINT", encode(MessageClass::SuccessResponse, id, vec![MessageIntegrity::new(key(PASS)).into()])));
         v.push(("wrong-key integrity, bad CRC", flip_last(encode(MessageClass::SuccessResponse, id, vec![MessageIntegrity::new(key("other")).into(), Fingerprint::default().into()]))));
     }
+    if fp {
+        // (the names starting with "!" must be refused by a client that uses fingerprints, whatever the message class)
+        v.push(("!indication with a bad CRC", flip_last(encode(MessageClass::Indication, TransactionId::from([4u8; 12]), vec![Software::new("x").unwrap().into(), Fingerprint::default().into()]))));
+        v.push(("!indication without FINGERPRINT", encode(MessageClass::Indication, TransactionId::from([4u8; 12]), vec![Software::new("x").unwrap().into()])));
+        v.push(("!response with a bad CRC", flip_last(encode(MessageClass::SuccessResponse, id, vec![Software::new("y").unwrap().into(), Fingerprint::default().into()]))));
+        v.push(("!error response without FINGERPRINT", encode(MessageClass::ErrorResponse, id, vec![stun_rs::attributes::stun::ErrorCode::from(stun_rs::ErrorCode::new(400, "Bad").unwrap()).into()])));
+    }
     let tail: Vec<StunAttribute> = if fp { vec![Fingerprint::default().into()] } else { vec![] };
     let other = TransactionId::from([9u8; 12]);
     let mut a = vec![Software::new("x").unwrap().into()]; a.extend(tail.clone());
@@ -82,7 +89,10 @@ fn scenario(mech: bool, fp: bool, inject: Option<usize>) -> Result<(Vec<String>,
         let (n, buf) = &fam[k];
         name = Some(*n);
         match c.on_buffer_recv(buf, t0 + ms(10)) {
-            Ok(()) => return Ok((vec![], None)),          // this client accepts it (e.g. no mechanism): not a rejected buffer
+            Ok(()) => {
+                if n.starts_with('!') { return Err(format!("a client that uses fingerprints accepted '{}'", &n[1..])); }
+                return Ok((vec![], None));                // this client accepts it (e.g. no mechanism): not a rejected buffer
+            }
             Err(_) => {}
         }
         let ev = observe(&mut c);
